@@ -988,6 +988,12 @@ fn apply_closure_specs(cx: &mut Ctx, f: &FnInfo, specs: Option<&Value>) {
         let ret = s["ret"].as_str().unwrap_or("");
         let spec = s["spec"].as_str().unwrap_or("");
         cx.push(bs, bs, format!("-> {}\n{}\n", ret, spec), "R1.closure");
+        // a closure with an explicit return type needs a block body: `|x| e` -> `|x| -> T spec { e }`
+        if !matches!(&*c.body, syn::Expr::Block(_)) {
+            let (_, be) = cx.range(c.body.span());
+            cx.push(bs, bs, "{ ", "R1.closure.brace");
+            cx.push(be, be, " }", "R1.closure.brace");
+        }
     }
 }
 
